@@ -128,6 +128,10 @@ func runC03(w *World, r *Report) {
 	oxmLenRule(w, r)
 	r.Rule("order", "builders only extend the lists the encoder walks; they never reassign elements in place", 7)
 	orderRule(w, r)
+	r.Rule("wirelen", "the declared length each encoder puts on the wire equals the bytes the element occupies at the moment of encoding", 34)
+	if ak, ik, ok := elementKinds(w); ok {
+		runWirelen(w, r, ak, ik)
+	}
 	r.Rule("fresh", "a match-field header looked up by name is an object of its own", 1)
 	{
 		r2 := NewReport(r.Prop, r.Tier)
@@ -136,6 +140,17 @@ func runC03(w *World, r *Report) {
 			if o.Rule == "fresh" {
 				r.Add(o)
 			}
+		}
+		// the same for every other function: a header or field object taken from a package-level cache or
+		// table and handed out is one object for all callers
+		r3 := NewReport(r.Prop, r.Tier)
+		escapeRule(w, r3, nil)
+		for _, o := range r3.Obs {
+			o.Rule = "fresh"
+			if o.Subject == "openflow13.FindFieldHeaderByName" {
+				continue // decided above
+			}
+			r.Add(o)
 		}
 	}
 	layouts, err := loadLayouts()
